@@ -976,7 +976,14 @@ func (r *rec) stmts(list []ast.Stmt) []string {
 				case r.returnsAssertion(x.Body):
 					out = append(out, "ASSERT")
 				default:
-					r.bad(x, "negated condition whose body is neither the await abort nor the assertion failure")
+					// a guard that leaves the section some other way (a goto, a plain return): no MPCal statement compiles to
+					// this, so it is rendered as a foreign statement and mismatches whatever the spec has here
+					out = append(out, "UNLESS")
+					out = append(out, r.expr(c)...)
+					out = append(out, "{")
+					out = append(out, r.stmts(x.Body.List)...)
+					out = append(out, "}")
+					continue
 				}
 				out = append(out, r.expr(c)...)
 				out = append(out, ";")
